@@ -83,8 +83,8 @@ KCLASS = {
     "optical-series": "vector-series",
 }
 SHAPES = {
-    "quick": {"2d": [(5, 5), (6, 8)], "3d": [(3, 4, 5)], "checker": [(40, 60)], "drift": [(160, 200)]},
-    "thorough": {"2d": [(4, 4), (5, 7), (8, 6), (5, 5), (6, 8)], "3d": [(3, 4, 5), (4, 3, 3)], "checker": [(40, 60)], "drift": [(160, 200)]},
+    "quick": {"2d": [(5, 5), (6, 8)], "wide": [(5, 5), (6, 8)], "3d": [(3, 4, 5)], "checker": [(40, 60)], "drift": [(160, 200)]},
+    "thorough": {"2d": [(4, 4), (5, 7), (8, 6), (5, 5), (6, 8)], "wide": [(5, 5), (6, 8)], "3d": [(3, 4, 5), (4, 3, 3)], "checker": [(40, 60)], "drift": [(160, 200)]},
 }
 DEPTH = {"quick": {"light": 3, "heavy": 2}, "thorough": {"light": 5, "heavy": 3}}
 NT = 2  # time steps (differs from the 3 colour components on purpose)
@@ -122,6 +122,8 @@ CONFIGS["drift/inactive-nobase"] = _cfg("drift/inactive-nobase", "drift/inactive
 CONFIGS["drift/active"] = _cfg("drift/active", "drift/active", KRGB, "drift", weight="heavy", dtypes=["uint8", "float64"])
 CONFIGS["drift/active-roi"] = _cfg("drift/active-roi", "drift/active", KRGB, "drift", weight="heavy", dtypes=["uint8", "float64"])
 CONFIGS["color/inactive"] = _cfg("color/inactive", "color/inactive", KRGB, neutral="intensity")
+# inactive although clipping is configured, on float data reaching outside [0, 1] ("wide" payload)
+CONFIGS["color/inactive-clip"] = _cfg("color/inactive-clip", "color/inactive", KRGB, "wide", neutral="intensity")
 CONFIGS["color/darsia"] = _cfg("color/darsia", "color/active", KRGB, "checker", weight="heavy")
 CONFIGS["color/colour"] = _cfg("color/colour", "color/active", KRGB, "checker", weight="heavy")
 CONFIGS["color/custom-linear-clip"] = _cfg("color/custom-linear-clip", "color/active", KRGB, "checker", weight="heavy")
@@ -196,8 +198,17 @@ def cases(tier):
 
 
 # ------------------------------------------------------------------------------ payloads
+_WIDE = [False]
+
+
 def payload(full_shape, dtype):
-    """Provenance-like payload: dyadic floats in (0, 1], non-zero integers."""
+    """Provenance-like payload: dyadic floats in (0, 1] (in (-0.5, 1.5] for the "wide" payload), non-zero integers."""
+    if _WIDE[0] and dtype not in ("uint8", "uint16"):
+        _WIDE[0] = False
+        try:
+            return (2.0 * payload(full_shape, dtype) - 0.5).astype(dtype)
+        finally:
+            _WIDE[0] = True
     n = int(np.prod(full_shape))
     idx = np.arange(n, dtype=np.int64).reshape(full_shape)
     if dtype == "uint8":
@@ -265,6 +276,14 @@ def dims_of(shape):
 
 
 def make_input(kind, shape, dtype, special="2d"):
+    _WIDE[0] = special == "wide"
+    try:
+        return _make_input(kind, shape, dtype, special)
+    finally:
+        _WIDE[0] = False
+
+
+def _make_input(kind, shape, dtype, special="2d"):
     import darsia
 
     shape = tuple(shape)
@@ -413,6 +432,8 @@ def _build(name, shape):
         roi = [[0, 0], [H, 0], [H, W], [0, W]]
         if sub == "inactive":
             return darsia.ColorCorrection(config={"roi": roi, "active": False})
+        if sub == "inactive-clip":
+            return darsia.ColorCorrection(config={"roi": roi, "active": False, "clip": True})
         if sub == "darsia":
             return darsia.ColorCorrection(config={"roi": roi, "balancing": "darsia"})
         if sub == "colour":
